@@ -66,6 +66,81 @@ func expand(c Case) Case {
 
 var errSupplier = errors.New("harness: supplier failure")
 
+// amountsOutside reports why the amounts of a case (c.Tx = the transaction as it stands when Fund
+// is called) are outside the domain. Satoshi amounts and the deficit handed to the supplier are
+// uint64, so every amount is in the domain as long as (a) the input total cannot overflow
+// wherever the loop stops (inputs plus every UTXO of the supplier history below 2^64) and (b)
+// outputs plus the estimated fee - what the inputs have to cover, and the largest deficit there can
+// be - stays below 2^64 at every stage (the fee is bounded from above by the fee of the starting
+// estimate plus 160 standard bytes per UTXO of the history).
+func amountsOutside(c Case) string {
+	in := ref.FeeSumIn(c.Tx)
+	n := 0
+	for _, b := range c.Batches {
+		for _, u := range b {
+			in.Add(in, new(big.Int).SetUint64(u.Sats))
+			n++
+		}
+	}
+	if !in.IsUint64() {
+		return "the input total could overflow uint64"
+	}
+	fin, _, err := ref.FeeEstimatedFinal(c.Tx)
+	if err != nil {
+		return "" // not estimable: decided elsewhere
+	}
+	sz := ref.FeeSizesOf(fin)
+	sz.Std += uint64(160*n + 16)
+	fee, _, _ := ref.FeeCalc(sz, c.Quote)
+	if !fee.Add(fee, ref.FeeSumOut(c.Tx)).IsUint64() {
+		return "outputs plus fee could overflow uint64"
+	}
+	return ""
+}
+
+const maxU64 = ^uint64(0)
+
+// satAdd is a+b, saturating at 2^64-1.
+func satAdd(a, b uint64) uint64 {
+	if a > maxU64-b {
+		return maxU64
+	}
+	return a + b
+}
+
+// genHugeAmount draws an amount in the upper part of the uint64 range: around 2^62, on both sides
+// of 2^63 (where a signed 64-bit view changes sign) and near 2^64 (2^40 below it, which leaves
+// room for any fee of the generated transactions).
+func genHugeAmount(t *rapid.T, label string) (uint64, string) {
+	k := rapid.Uint64Range(0, 1000000).Draw(t, label+"_k")
+	switch rapid.IntRange(0, 5).Draw(t, label+"_class") {
+	case 0:
+		return 1<<62 + k, "2^62+k"
+	case 1:
+		return 1<<63 - 1 - k, "2^63-1-k"
+	case 2:
+		return 1<<63 - 1, "2^63-1"
+	case 3:
+		return 1 << 63, "2^63"
+	case 4:
+		return 1<<63 + 1 + k, "2^63+1+k"
+	}
+	return maxU64 - 1<<40 - k, "2^64-2^40-k"
+}
+
+// genHugeOutput gives one output an amount in the upper half of the uint64 range (the others
+// stay small, or carry nothing when the amount is near 2^64: the output total cannot overflow).
+func genHugeOutput(t *rapid.T, outs []ref.Out) {
+	v, class := genHugeAmount(t, "huge_out_v")
+	at := rapid.IntRange(0, len(outs)-1).Draw(t, "huge_out_at")
+	if class == "2^64-2^40-k" {
+		for i := range outs {
+			outs[i].Sats = 0
+		}
+	}
+	outs[at].Sats = v
+}
+
 // result classes of the model
 const (
 	resOK          = "ok"
@@ -208,14 +283,8 @@ func check(ctx *pbt.Ctx, c Case) error {
 		ctx.Discard("ambiguous extended-marker shape")
 		return nil
 	}
-	tot := new(big.Int).Add(ref.FeeSumIn(c.Tx), ref.FeeSumOut(c.Tx))
-	for _, b := range c.Batches {
-		for _, u := range b {
-			tot.Add(tot, new(big.Int).SetUint64(u.Sats))
-		}
-	}
-	if tot.Cmp(new(big.Int).Lsh(big.NewInt(1), 62)) > 0 {
-		ctx.Discard("totals too large")
+	if why := amountsOutside(c); why != "" {
+		ctx.Discard(why)
 		return nil
 	}
 	switch c.End {
@@ -304,6 +373,19 @@ func judgeFund(ctx *pbt.Ctx, c Case, want modelResult, tx *bt.Tx, fq *bt.FeeQuot
 	}
 	if hasData {
 		ctx.Label("data-outputs")
+	}
+	two63 := new(big.Int).Lsh(big.NewInt(1), 63)
+	if ref.FeeSumOut(c.Tx).Cmp(two63) >= 0 {
+		ctx.Label("outputs>=2^63")
+	}
+	if len(want.deficits) > 0 && want.deficits[0].Cmp(two63) >= 0 {
+		ctx.Label("first-deficit>=2^63")
+	}
+	if want.class == resOK && ref.FeeSumIn(want.final).Cmp(two63) >= 0 {
+		ctx.Label("funded-inputs>=2^63")
+		if new(big.Int).Sub(ref.FeeSumIn(want.final), ref.FeeSumOut(want.final)).Cmp(two63) >= 0 {
+			ctx.Label("funded-surplus>=2^63")
+		}
 	}
 	if len(want.deficits) >= 2 || emptyBatch || (want.class != resOK && want.handed > 0) {
 		ctx.NonTrivial()
@@ -447,6 +529,9 @@ func genCase(t *rapid.T) Case {
 		}
 		c.Tx.Out = append(c.Tx.Out, o)
 	}
+	if nout > 0 && rapid.IntRange(0, 19).Draw(t, "huge_out") == 13 {
+		genHugeOutput(t, c.Tx.Out)
+	}
 	nprior := rapid.IntRange(0, 3).Draw(t, "nprior")
 	for i := 0; i < nprior; i++ {
 		in := ref.In{TxID: gen.Bytes(t, 32, "txid"), Vout: gen.U32(t, "vout"), Seq: 0xffffffff, PrevScript: ref.FeeP2PKH(gen.Bytes(t, 20, "pkh")), UnlockNil: true}
@@ -486,7 +571,11 @@ func genCase(t *rapid.T) Case {
 		case 4:
 			total = need
 		default:
-			total = need + rapid.Uint64Range(1, 1000000).Draw(t, "surplus")
+			total = satAdd(need, rapid.Uint64Range(1, 1000000).Draw(t, "surplus"))
+			if rapid.IntRange(0, 9).Draw(t, "huge_surplus") == 7 { // prior inputs worth far more than needed
+				v, _ := genHugeAmount(t, "huge_surplus_v")
+				total = satAdd(need, v)
+			}
 		}
 		rem := total
 		for i := range c.Tx.In {
@@ -514,6 +603,11 @@ func genCase(t *rapid.T) Case {
 func genBatches(t *rapid.T, start ref.Tx, q ref.FeeQuote) (batches [][]U) {
 	cur := start
 	cur.In = append([]ref.In{}, start.In...)
+	// what the supplier may still hand out before the input total would overflow uint64
+	room := uint64(0)
+	if s := ref.FeeSumIn(start); s.IsUint64() {
+		room = maxU64 - s.Uint64()
+	}
 	nb := rapid.IntRange(0, 6).Draw(t, "nbatches")
 	for b := 0; b < nb; b++ {
 		n := []int{1, 2, 0, 3, 4}[rapid.IntRange(0, 4).Draw(t, "batchlen")]
@@ -544,12 +638,14 @@ func genBatches(t *rapid.T, start ref.Tx, q ref.FeeQuote) (batches [][]U) {
 			case 5:
 				u.Sats = need
 			case 6:
-				u.Sats = need + 1
+				u.Sats = satAdd(need, 1)
 			case 7:
-				u.Sats = need + rapid.Uint64Range(2, 1000000000).Draw(t, "ample")
+				u.Sats = satAdd(need, rapid.Uint64Range(2, 1000000000).Draw(t, "ample"))
 			default:
-				u.Sats = rapid.Uint64Range(0, 2*need+1000).Draw(t, "any")
+				u.Sats = rapid.Uint64Range(0, satAdd(satAdd(need, need), 1000)).Draw(t, "any")
 			}
+			u.Sats = min(u.Sats, room)
+			room -= u.Sats
 			// rare invalid entries sit at the top of the range (rapid favours small values)
 			switch k := rapid.IntRange(0, 63).Draw(t, "ubad"); {
 			case k == 63:
